@@ -67,6 +67,22 @@ def run(chk):
         return st.store[TAPOBJ]
     fi = tn.fi
     n_laws = 0
+    # a stopped deck is frozen: emulated time passing changes nothing of it (whatever pulse was interrupted, whatever it
+    # will resume at), so that play continues exactly where stop left off
+    for p in tn.variants:
+        x = base("Stop", p)
+        rs = call(PCL, x, opaque=(NB, RW, tn.method("next_block_byte")))
+        key = "T-LAW/Tap::process_clocks/stopped-inert"
+        if not rs or any(r.outcome != "return" for r in rs):
+            chk.undecided_(key, "process_clocks on a stopped deck: %s" % [(r.outcome, r.detail) for r in rs][:2])
+            continue
+        for r in rs:
+            diff = cc.tree_diff(prog, x, r.store[TAPOBJ])
+            names_ = [cc.tree_name(prog, "tap", tn.TAP, (A,), d_) for d_ in diff]
+            chk.check(not diff and not r.trace, key,
+                      "time passing on a stopped deck (saved state %s) changes %s / performs %s: the interrupted pulse is not resumed where it stopped" % (
+                          p, [n_[0] if n_ else "?" for n_ in names_], [e.path.split("::")[-1] for e in r.trace]))
+            n_laws += 1
     for s in tn.variants:
         for p in tn.variants:
             x = base(s, p)
